@@ -323,8 +323,28 @@ RULE = ("programs = behaviours of Gen.tla with exactly one planted fault (Ill0 =
         "non-trivial = distinct program compiling to >= 6 ops")
 
 
+def syntax_replay(h, case):
+    """a recorded syntax disagreement: the text is parsed again, the reported line judged against the recorded spans"""
+    det = case.get("detail") or {}
+    pr = h.req({"op": "parse", "src": case["text"]})
+    if pr.get("ok"):
+        return {"status": "skip", "why": "the text parses"}
+    ln = pr["err"].get("ln")
+    spans = {int(k): v for k, v in (det.get("spans") or {}).items()}
+    j = det.get("stmt")
+    if j not in spans:
+        return {"status": "skip", "why": "no spans recorded"}
+    nxt = spans.get(j + 1)
+    ok = ln is not None and (spans[j][0] <= ln <= spans[j][1] or (nxt is not None and ln == nxt[0])
+                             or (nxt is None and ln == spans[j][1] + 1))
+    return {"status": "ok"} if ok else {"status": "violation", "key": "syntax-error-outside-mutated-statement",
+                                        "text": case["text"], "detail": {"line": ln, "stmt": j, "spans": spans}}
+
+
 def main(tier, replay=None):
     t0 = time.time()
+    if replay:
+        return c01.do_replay(PID, replay, work, text_replay=syntax_replay)
     fams = QUICK if tier == "quick" else THOROUGH
     return c01.run(PID, tier, fams, t0, worker=work, rule=RULE,
                    after=lambda rep, stats, okprogs: syntax_leg(tier, rep, stats, okprogs))
